@@ -42,6 +42,17 @@ Theorem C07_reconnects : forall V s n, HI V s -> hconn V s n = None -> reach V s
 Proof. exact reconnects. Qed.
 Print Assumptions C07_reconnects.
 
+(* a reply lost after execution (the node executed the command, the connection died before the answer): the client
+   is told an error, never a result; the data is what exactly one execution leaves - the command is not sent again,
+   its effect is not undone; the connection is marked lost, so the next request to that node dials a new one *)
+Theorem C07_lost_reply : forall V sem slot hosts s sb, HI V s ->
+  let '(s1, out) := do_hop V sem slot hosts s (HReqLost sb) in
+  (exists o, out = Some (RErr o)) /\ hdb V s1 = hdb V (fst (do_req V sem slot hosts s sb)) /\
+  (forall r n id red, snd (do_req V sem slot hosts s sb) = ROk r n id red ->
+     hdb V s1 = fst (exec_sub V sem (hdb V s) sb) /\ exists id', hconn V s1 n = Some (id', false)).
+Proof. exact lost_reply. Qed.
+Print Assumptions C07_lost_reply.
+
 (* a refresh request made while a round is in flight is kept (the trigger channel of upstream.go holds one entry) *)
 Theorem C07_trigger_kept : 1 <= slots_refresh_ch_cap.
 Proof. exact trigger_kept. Qed.
